@@ -664,7 +664,11 @@ def unaryOp (sc : Bool) (op : UnOp) (e : Operand) : Option Operand :=
     let (t, q, lv, bf) := match e.decayedFrom with
       | some (t, q) => (t, q, true, false)
       | none => (e.ty, e.qual, e.lvalue, e.width.isSome)
-    if !lv && !t.isFunc && !t.isStructUnion then none
+    -- `unaryexpr`: the operand of a user-level `&` that is not a decayed designator must be an
+    -- lvalue or a function designator (fix c22baea) …
+    if e.decayedFrom.isNone && !e.lvalue && !e.ty.isFunc then none
+    -- … `mkunaryexpr` itself exempts struct/union operands (it also serves member access)
+    else if !lv && !t.isFunc && !t.isStructUnion then none
     else if bf then none
     else some (rvalue (.ptr q t))
   | .deref =>
@@ -734,8 +738,8 @@ return type (`decay` is applied, which cannot fire for a valid return type) -/
 def callType (f : Operand) (nargs : Nat) : Option Operand :=
   match f.ty with
   | .ptr _ (.func _ ret params vararg) =>
-    -- "not enough arguments" is only diagnosed for non-variadic functions
-    if nargs < params.length && !vararg then none
+    -- "not enough arguments": every named parameter needs an argument, variadic or not (fix e3588ce)
+    if nargs < params.length then none
     else if nargs > params.length && !vararg then none
     else some (decay (rvalue ret))
   | _ => none
